@@ -6,7 +6,7 @@ cd "$(dirname "$0")/.."
 ROOT=$(pwd)
 if [ "$1" = "--clean" ]; then
   (cd coq && [ -f Makefile ] && make clean >/dev/null 2>&1 || true)
-  rm -rf coq/Makefile coq/Makefile.conf coq/.*.aux coq/model.ml coq/model.mli ocaml/_build
+  rm -rf coq/Makefile coq/Makefile.conf coq/.*.aux coq/*.ml coq/*.mli ocaml/_build
 fi
 cd "$ROOT/coq"
 # fail closed on forbidden constructs anywhere in the development
@@ -22,14 +22,19 @@ for v in $(grep '\.v$' _CoqProject); do
 done
 mkdir -p "$ROOT/ocaml/_build"
 cd "$ROOT/ocaml/_build"
-for m in model; do
-  if [ -f "$ROOT/coq/$m.ml" ]; then cp "$ROOT/coq/$m.ml" "$ROOT/coq/$m.mli" .; fi
+for f in "$ROOT"/coq/*.ml "$ROOT"/coq/*.mli; do
+  [ -f "$f" ] && { cmp -s "$f" "$(basename "$f")" || cp "$f" .; }
 done
+# each driver names the extracted module it drives in its first line:  (* MODEL: <name> *)
 for d in "$ROOT"/ocaml/driver_*.ml; do
   name=$(basename "$d" .ml)
-  if [ ! -x "$name" ] || [ "$d" -nt "$name" ] || [ model.ml -nt "$name" ]; then
+  model=$(head -1 "$d" | sed -n 's/.*MODEL: *\([A-Za-z0-9_]*\).*/\1/p')
+  [ -n "$model" ] || model=model
+  if [ ! -x "$name" ] || [ "$d" -nt "$name" ] || [ "$model.ml" -nt "$name" ]; then
     cp "$d" .
-    ocamlfind ocamlopt -O2 -w -a model.mli model.ml "$name.ml" -o "$name" 2>/dev/null || ocamlfind ocamlopt -w -a model.mli model.ml "$name.ml" -o "$name"
+    ocamlfind ocamlopt -O2 -w -a "$model.mli" "$model.ml" "$name.ml" -o "$name" 2>/dev/null \
+      || ocamlfind ocamlopt -w -a "$model.mli" "$model.ml" "$name.ml" -o "$name" \
+      || { echo "BUILD FAILED: $name" >&2; exit 2; }
   fi
 done
 echo "build ok"
